@@ -89,6 +89,26 @@ def inv_violations(impl):
     return out
 
 
+def view_disagreements(impl):
+    """lookup by name against list / len / iteration / containment: navigation by name (x.<name>.<child>) resolves
+    a missing child to the element kept for traversal; if that element LISTS children, the name view shows
+    content that len(x.<name>), iteration over x and containment do not.  (Evaluated after successful calls:
+    a write through a chain must have promoted every element of the chain.)"""
+    out = []
+    for x in walk(impl):
+        for k, l in x.children.traversal_indexes.items():
+            for t in l:
+                if len(t.children.list) and not any(c is t for c in x.children.list):
+                    try:
+                        n = len(getattr(x, k.lower())) if isinstance(k, str) else 0
+                    except Exception:  # noqa
+                        n = 0
+                    out.append(('name-lookup-vs-list', '%r.%s resolves to %r which lists %r, but len(%r.%s) == %d and it '
+                                'is not in the children of %r' % (x, str(k).lower(), t, t.children.list, x,
+                                                                  str(k).lower(), n, x)))
+    return out
+
+
 def element_args(op):
     """handles of the elements an operation attaches"""
     k = op[0]
@@ -122,13 +142,57 @@ def in_traversal_index(impl, el):
 def classify(impl_before_listed, op):
     """the cause attribute of an invariant break, from the operation that caused it"""
     k = op[0]
-    if any(isinstance(a, (list, tuple)) and len(a) >= 2 and a[0] == 'd' for a in op) or k == 'setvaluedt':
-        return 'datatype-object'
     if k == 'setparent' and op[2] is None and impl_before_listed:
         return 'parent-none-of-listed'
     if impl_before_listed and k in ('add', 'setattr', 'setindex', 'setlistindex', 'setparent'):
         return 'reattach-listed'
     return 'other'
+
+
+def make_hook(run, g, v, lvl, stats):
+    """the oracle of one history: after every step, successful or rejected, the clauses of C10 on the live graph;
+    after successful steps also the agreement of the name view with the list view"""
+    state = {'broken': False, 'listed': False}
+
+    def hook(impl, kk, op, phase, data):
+        if phase == 'before':
+            hs = [h for h in element_args(op) if 0 <= h < len(impl.I)]
+            state['listed'] = any(is_listed(impl, impl.I[h]) for h in hs)
+            if hs:
+                stats['steps_with_element_argument'] += 1
+            for h in hs:
+                el = impl.I[h]
+                if not is_listed(impl, el):
+                    # the hypothesis `detached` of C10_step_partial: not listed, no traversal parent,
+                    # in no traversal index - measured: does "not listed" imply the rest for handles?
+                    stats['element_args_unlisted'] = stats.get('element_args_unlisted', 0) + 1
+                    if el._traversal_parent is None and not in_traversal_index(impl, el):
+                        stats['element_args_detached'] = stats.get('element_args_detached', 0) + 1
+            return
+        stats['steps'] += 1
+        if data[0] != 0:
+            stats['rejected_steps'] += 1
+        if state['broken']:
+            return
+        stats['inv_evaluations'] += 1
+        viol = inv_violations(impl)
+        if viol:
+            state['broken'] = True
+            stats['histories_with_break'] += 1
+            cause = classify(state['listed'], op)
+            run.fail('inv-broken', 'the element tree is inconsistent after an API call: ' + viol[0][1][:200],
+                     cause=cause, clause=viol[0][0], version=v, level=lvl, outcome=data[0],
+                     ops=g.ops + [op], step=kk)
+            return
+        if data[0] == 0:
+            dis = view_disagreements(impl)
+            if dis:
+                state['broken'] = True
+                stats['histories_with_break'] += 1
+                run.fail('views-disagree', 'lookup by name and the children list disagree after a successful call: '
+                         + dis[0][1][:300], clause=dis[0][0], operation=op[0], version=v, level=lvl,
+                         ops=g.ops + [op], step=kk)
+    return hook, state
 
 
 def main(argv=None):
@@ -151,39 +215,9 @@ def main(argv=None):
         cases = []
         for k in range(nhist // len(versions)):
             lvl = H.TOLERANT if k % 2 == 0 else H.STRICT
-            profile = 'segment' if k % 3 == 0 else 'deep'
+            profile = 'reps' if k % 6 == 1 else ('segment' if k % 3 == 0 else 'deep')
             g = H.Gen(rng, v, lvl, profile=profile, nsteps=nsteps)
-            state = {'broken': False, 'listed': False, 'unsafe': False}
-
-            def hook(impl, kk, op, phase, data, state=state, g=g, v=v, lvl=lvl):
-                if phase == 'before':
-                    hs = [h for h in element_args(op) if 0 <= h < len(impl.I)]
-                    state['listed'] = any(is_listed(impl, impl.I[h]) for h in hs)
-                    if hs:
-                        stats['steps_with_element_argument'] += 1
-                    for h in hs:
-                        el = impl.I[h]
-                        if not is_listed(impl, el):
-                            # the hypothesis `detached` of C10_step_partial: not listed, no traversal parent,
-                            # in no traversal index - measured: does "not listed" imply the rest for handles?
-                            stats['element_args_unlisted'] = stats.get('element_args_unlisted', 0) + 1
-                            if el._traversal_parent is None and not in_traversal_index(impl, el):
-                                stats['element_args_detached'] = stats.get('element_args_detached', 0) + 1
-                    return
-                stats['steps'] += 1
-                if data[0] != 0:
-                    stats['rejected_steps'] += 1
-                if state['broken']:
-                    return
-                stats['inv_evaluations'] += 1
-                viol = inv_violations(impl)
-                if viol:
-                    state['broken'] = True
-                    stats['histories_with_break'] += 1
-                    cause = classify(state['listed'], op)
-                    run.fail('inv-broken', 'the element tree is inconsistent after an API call: ' + viol[0][1][:200],
-                             cause=cause, clause=viol[0][0], version=v, level=lvl, outcome=data[0],
-                             ops=g.ops + [op], step=kk)
+            hook, state = make_hook(run, g, v, lvl, stats)
             g.run(hook)
             if not state['broken']:
                 stats['histories_safe'] += 1
@@ -192,6 +226,20 @@ def main(argv=None):
             if len(samples) < 4 and k % 97 == 5:
                 samples.append({'version': v, 'level': lvl, 'ops': g.ops, 'codes': g.codes})
         all_cases[v] = cases
+    # message-level family (Message / Group parents: outside the Coq model, judged by the oracle only)
+    nmsg = 900 if run.thorough else 240
+    stats['message_level_histories'] = nmsg
+    for k in range(nmsg):
+        v = versions[k % len(versions)]
+        lvl = H.TOLERANT if k % 2 == 0 else H.STRICT
+        g = H.MsgGen(rng, v, lvl, nsteps=14)
+        hook, state = make_hook(run, g, v, lvl, stats)
+        g.run(hook)
+        if not state['broken']:
+            stats['histories_safe'] += 1
+        shapes.add((v, lvl, 'msg', tuple(sorted(set((o[0], c) for o, c in zip(g.ops, g.codes))))))
+        if k == 7:
+            samples.append({'version': v, 'level': lvl, 'message_level': True, 'ops': g.ops, 'codes': g.codes})
     run.log('implementation side: %d histories, %d steps (%d rejected), %d oracle failures'
             % (sum(len(c) for c in all_cases.values()), stats['steps'], stats['rejected_steps'], len(run.failures)))
     evaluated = steps = nplain = 0
@@ -210,7 +258,7 @@ def main(argv=None):
             'paths off, %d of them differ' % (evaluated, steps, len(run.disagreements), nplain,
                                               stats.get('histories_not_plain', 0)))
     stats['histories_replayed_plain'] = nplain
-    H.shrink_oracle_failures(run, oracle_on_history, ('cause',))
+    H.shrink_oracle_failures(run, oracle_on_history, ('cause', 'clause'))
     causes = {}
     for f in run.failures:
         key = '%s/%s' % (f['data'].get('cause'), f['data'].get('clause'))
@@ -245,22 +293,20 @@ def main(argv=None):
 
 
 def oracle_on_history(run, v, ops):
-    state = {'listed': False, 'done': False}
+    class G(object):
+        pass
+    g = G()
+    g.ops = []
+    stats = {'steps': 0, 'rejected_steps': 0, 'inv_evaluations': 0, 'histories_with_break': 0,
+             'histories_safe': 0, 'steps_with_element_argument': 0}
+    hook, state = make_hook(run, g, v, None, stats)
 
-    def hook(impl, kk, op, phase, data):
-        if phase == 'before':
-            hs = [h for h in element_args(op) if 0 <= h < len(impl.I)]
-            state['listed'] = any(is_listed(impl, impl.I[h]) for h in hs)
-            return
-        if state['done']:
-            return
-        viol = inv_violations(impl)
-        if viol:
-            state['done'] = True
-            run.fail('inv-broken', 'the element tree is inconsistent after an API call: ' + viol[0][1][:200],
-                     cause=classify(state['listed'], op), clause=viol[0][0], version=v, outcome=data[0],
-                     ops=ops[:kk + 1], step=kk)
-    H.run_history(v, ops, hook)
+    def h2(impl, kk, op, phase, data):
+        hook(impl, kk, op, phase, data)
+        if phase == 'after':
+            g.ops.append(op)
+    runner = H.run_message_history if any(o[0] == 'newmsg' for o in ops) else H.run_history
+    runner(v, ops, h2)
 
 
 def replay(run):
